@@ -71,6 +71,7 @@ async def _drive(case):
     psend, rsend, bsend = proposals.new_sender(), results.new_sender(), boundsch.new_sender()
     o = lambda x: None if x is None else W(x)
     last_req = None
+    all_reqs: list = []
 
     req_buf: list = []
     rep_buf = {False: [], True: []}
@@ -98,6 +99,7 @@ async def _drive(case):
             entry["request"] = M.watts(rq[-1].power)
             entry["adjust_power"] = rq[-1].adjust_power
             last_req = rq[-1]
+            all_reqs.extend(rq)
         if reps[False] and reps[True]:
             rr_, ro_ = reps[False][-1], reps[True][-1]
             b = lambda r: None if r.bounds is None else [M.watts(r.bounds.lower), M.watts(r.bounds.upper)]
@@ -119,7 +121,9 @@ async def _drive(case):
                               inclusion_bounds=sb.inclusion_bounds, exclusion_bounds=sb.exclusion_bounds)
             await bsend.send(sb)
         elif e["t"] == "result":
-            req = last_req or pd.Request(power=W(0), component_ids=IDS)
+            # a result may answer the latest request or an OLDER one (results are asynchronous)
+            back = e.get("back", 0)
+            req = (all_reqs[-1 - back] if len(all_reqs) > back else last_req) or pd.Request(power=W(0), component_ids=IDS)
             if e["k"] == 0:
                 res = pd.Success(request=req, succeeded_power=req.power, succeeded_components=set(IDS), excess_power=W(0))
             elif e["k"] == 1:
@@ -223,7 +227,7 @@ def gen_case(rng, maxlen=14):
             evs.append({"t": "bounds", "sys": M.gen_sys(rng, allow_none=rng.random() < 0.3),
                         "ts": rng.choice([-100, -5, -1, 0, 0, 1, 5, 100])})
         elif r < 0.88:
-            evs.append({"t": "result", "k": rng.choice([0, 1, 1, 2])})
+            evs.append({"t": "result", "k": rng.choice([0, 1, 1, 2]), "back": rng.choice([0, 0, 1, 2])})
         else:
             evs.append({"t": "sleep", "dt": rng.choice([1, 8, 80, 239, 240, 400, 479, 480, 481, 500])})
     return {"events": evs}
